@@ -2,22 +2,26 @@ import SurfModel.Proto
 import SurfModel.Grammar
 import SurfModel.Payload
 import SurfModel.Protocol
+import SurfModel.ProtocolWire
 import SurfModel.Stream
-/-! Driver for C04 (also usable by C02): `gram …` → grammar dumps and bisimulation of the production
-automata, `pay …` → models of the payload decoders, `proto …` → the protocol printer and the denotation of
-messages, `sd … | <table>` → the self-delimiting condition evaluated on a dumped table (which is also
-installed), `sd stream <hex>` → the composed model of `TTYEventDecoder` over the installed table. -/
+import SurfModel.StreamCheck
+/-! Driver for C04 (also usable by C02): `gram …` → grammar dumps, bisimulations of the production automata and
+the verified matcher on the production grammars, `pay …` → models of the payload decoders, `proto …` → the
+protocol printer and the denotation of messages, `sd … | <table>` → the finite checks on a dumped table (which
+is also installed), `sd stream <hex>` → the composed model of `TTYEventDecoder` over the installed table. -/
 open SurfModel
 
 partial def loopC04 (rows : Array Automata.Wire.Row) (h out : IO.FS.Stream) : IO Unit := do
   let line ← h.getLine
   if line.isEmpty then return ()
   match Proto.tokens line with
-  | "gram" :: rest => out.putStrLn (Grammar.handle rest); loopC04 rows h out
+  | "gram" :: rest =>
+    out.putStrLn ((Protocol.handleGram rest).getD (Grammar.handle rest))
+    loopC04 rows h out
   | "pay" :: rest => out.putStrLn (Payload.handle rest); loopC04 rows h out
   | "proto" :: rest => out.putStrLn (Protocol.handle rest); loopC04 rows h out
   | "sd" :: rest =>
-    let (rows', answer) := Stream.handleWith rows rest
+    let (rows', answer) := StreamCheck.handleWith rows rest
     out.putStrLn answer
     loopC04 rows' h out
   | _ => out.putStrLn "bad-op"; loopC04 rows h out
